@@ -269,6 +269,11 @@ func c19Advance(p *Prog, c *Check) {
 		}
 		c.Analysed(shortFn(fn))
 		fi := p.Info(fn)
+		if len(callsTo(fn, "SetTxPointer")) == 0 {
+			c.Fail(rule, shortFn(fn)+":advances", p.Rel(fn.Pos()), shortFn(fn), "pointer update after a keys message", "the function that must advance the tx pointer after a keys message does not write it with SetTxPointer (the upsert that also resets the age); the sibling path and this one would disagree on the next pointer")
+			n++
+			continue
+		}
 		for i, ci := range callsTo(fn, "SetTxPointer") {
 			n++
 			key := fmt.Sprintf("%s:SetTxPointer#%d", shortFn(fn), i+1)
